@@ -904,6 +904,33 @@ impl Property for C14 {
         for (tail, blocked) in [
             (vec![Ev::Terminate(Cause::UserDisconnect(DisconnectSpec::default())), Ev::PollOp { sel: 65535 }, Ev::DropCtx], false),
             (vec![Ev::Terminate(Cause::UserDisconnect(DisconnectSpec::default())), Ev::PollOp { sel: 65535 }, Ev::PollCtx, Ev::DropCtx], true),
+            // two (three) disconnect() calls from different clones in flight at the drop
+            (
+                vec![
+                    Ev::CloneHandle,
+                    Ev::CloneHandle,
+                    Ev::Terminate(Cause::UserDisconnect(DisconnectSpec::default())),
+                    Ev::PollOp { sel: 65535 },
+                    Ev::Start { h: 255, kind: OpKind::Disconnect, settle: false, solo: false },
+                    Ev::PollOp { sel: 65535 },
+                    Ev::Start { h: 128, kind: OpKind::Disconnect, settle: false, solo: false },
+                    Ev::PollOp { sel: 65535 },
+                    Ev::DropCtx,
+                ],
+                false,
+            ),
+            (
+                vec![
+                    Ev::CloneHandle,
+                    Ev::Terminate(Cause::UserDisconnect(DisconnectSpec::default())),
+                    Ev::PollOp { sel: 65535 },
+                    Ev::PollCtx,
+                    Ev::Start { h: 255, kind: OpKind::Disconnect, settle: false, solo: false },
+                    Ev::PollOp { sel: 65535 },
+                    Ev::DropCtx,
+                ],
+                true,
+            ),
         ] {
             if o.fail.is_some() {
                 break;
